@@ -196,7 +196,7 @@ DefineAll(s, ps, i) == IF i > Len(ps) THEN s ELSE DefineAll(Define(s, ps[i], i),
 \* Below it lie the levels of the module (class names), of `this`; they hold no lower-case name.
 Alg(f) ==
   LET s0 == [stack |-> <<{}, {}, {}>>, bad |-> FALSE, m |-> {}]
-      s1 == DefineAll(Push(s0), f.params, 1)
+      s1 == DefineAll(Push(Push(s0)), f.params, 1)
   IN Pop(Pop(AlgE(f.body, Len(f.params), s1)))
 
 \* [RT] the walk accepts exactly the well-scoped structures and computes the specified map
